@@ -68,6 +68,26 @@ struct KeylessI32 {
 struct KeylessBytes {
     value: Vec<u8>,
 }
+/// the key is NOT the first member (C11: a reader that hashes "the first members" instead of the key members is wrong here)
+#[derive(Clone, Debug, PartialEq, DdsType)]
+struct BytesThenKey {
+    value: Vec<u8>,
+    #[dust_dds(key)]
+    id: i32,
+}
+/// two key members of different width around a bytes payload; scenario id `k` means a = k, b = `kk_b(k)`
+#[derive(Clone, Debug, PartialEq, DdsType)]
+struct TwoKeys {
+    #[dust_dds(key)]
+    a: i32,
+    value: Vec<u8>,
+    #[dust_dds(key)]
+    b: i16,
+}
+/// second key member of `TwoKeys` for scenario id `k` (a function of the id, so that key equality = id equality)
+fn kk_b(k: i32) -> i16 {
+    (k.wrapping_mul(3).rem_euclid(1000) + 1) as i16
+}
 
 /// bytes value syntax: hex, `-` (empty) or `len:<n>[:<seed>]` (byte i = (seed + 7 i) mod 251)
 fn parse_bytes(v: &str) -> Result<Vec<u8>, String> {
@@ -100,6 +120,16 @@ trait TT: TypeSupport + Clone + Send + 'static {
     const TYPE_NAME: &'static str;
     fn make(id: i32, v: &str) -> Result<Self, String>;
     fn show(&self) -> String;
+    /// the instance handle a sample with scenario id `id` must have: the key members in declaration order, each
+    /// big-endian at its natural alignment, zero padded to 16 bytes (XTypes 7.6.8 for keys of at most 16 bytes);
+    /// all zero for a keyless type
+    fn expected_handle(id: i32) -> [u8; 16] {
+        let mut a = [0u8; 16];
+        if Self::KEYED {
+            a[0..4].copy_from_slice(&id.to_be_bytes());
+        }
+        a
+    }
 }
 impl TT for KeyedI32 {
     const KEYED: bool = true;
@@ -131,6 +161,37 @@ impl TT for KeylessI32 {
         format!("-:{}", self.value)
     }
 }
+impl TT for BytesThenKey {
+    const KEYED: bool = true;
+    const TYPE_NAME: &'static str = "BytesThenKey";
+    fn make(id: i32, v: &str) -> Result<Self, String> {
+        Ok(BytesThenKey { value: parse_bytes(v)?, id })
+    }
+    fn show(&self) -> String {
+        format!("{}:{}", self.id, show_bytes(&self.value))
+    }
+}
+impl TT for TwoKeys {
+    const KEYED: bool = true;
+    const TYPE_NAME: &'static str = "TwoKeys";
+    fn make(id: i32, v: &str) -> Result<Self, String> {
+        Ok(TwoKeys { a: id, value: parse_bytes(v)?, b: kk_b(id) })
+    }
+    fn show(&self) -> String {
+        // `<a>:<value>`; a second key member that is not `kk_b(a)` is shown explicitly
+        if self.b == kk_b(self.a) {
+            format!("{}:{}", self.a, show_bytes(&self.value))
+        } else {
+            format!("{}+{}:{}", self.a, self.b, show_bytes(&self.value))
+        }
+    }
+    fn expected_handle(id: i32) -> [u8; 16] {
+        let mut a = [0u8; 16];
+        a[0..4].copy_from_slice(&id.to_be_bytes());
+        a[4..6].copy_from_slice(&kk_b(id).to_be_bytes());
+        a
+    }
+}
 impl TT for KeylessBytes {
     const KEYED: bool = false;
     const TYPE_NAME: &'static str = "KeylessBytes";
@@ -148,6 +209,8 @@ enum Ty {
     Kb,
     Ni,
     Nb,
+    Bk,
+    Kk,
 }
 impl Ty {
     fn parse(s: &str) -> Option<Ty> {
@@ -156,11 +219,13 @@ impl Ty {
             "kb" => Some(Ty::Kb),
             "ni" => Some(Ty::Ni),
             "nb" => Some(Ty::Nb),
+            "bk" => Some(Ty::Bk),
+            "kk" => Some(Ty::Kk),
             _ => None,
         }
     }
     fn keyed(self) -> bool {
-        matches!(self, Ty::Ki | Ty::Kb)
+        matches!(self, Ty::Ki | Ty::Kb | Ty::Bk | Ty::Kk)
     }
 }
 
@@ -170,6 +235,8 @@ enum W {
     Kb(DataWriterAsync<KeyedBytes>),
     Ni(DataWriterAsync<KeylessI32>),
     Nb(DataWriterAsync<KeylessBytes>),
+    Bk(DataWriterAsync<BytesThenKey>),
+    Kk(DataWriterAsync<TwoKeys>),
 }
 #[derive(Clone)]
 enum R {
@@ -177,6 +244,8 @@ enum R {
     Kb(DataReaderAsync<KeyedBytes>),
     Ni(DataReaderAsync<KeylessI32>),
     Nb(DataReaderAsync<KeylessBytes>),
+    Bk(DataReaderAsync<BytesThenKey>),
+    Kk(DataReaderAsync<TwoKeys>),
 }
 macro_rules! each_w {
     ($w:expr, $d:ident => $body:expr) => {
@@ -185,6 +254,8 @@ macro_rules! each_w {
             W::Kb($d) => $body,
             W::Ni($d) => $body,
             W::Nb($d) => $body,
+            W::Bk($d) => $body,
+            W::Kk($d) => $body,
         }
     };
 }
@@ -195,6 +266,8 @@ macro_rules! each_r {
             R::Kb($d) => $body,
             R::Ni($d) => $body,
             R::Nb($d) => $body,
+            R::Bk($d) => $body,
+            R::Kk($d) => $body,
         }
     };
 }
@@ -248,19 +321,20 @@ fn key_handle(id: i32) -> InstanceHandle {
     a[0..4].copy_from_slice(&id.to_be_bytes());
     InstanceHandle::new(a)
 }
-/// symbolic instance handle: `h(<key>)` when the bytes are exactly the expected key hash of an i32 key,
-/// `h(nokey)` for the all-zero handle of a keyless type, raw hex otherwise
-fn show_ih(h: &InstanceHandle, keyed: bool) -> String {
+/// symbolic instance handle: `h(<id>)` when the 16 bytes are EXACTLY the expected key hash of scenario id `<id>` for
+/// this type (`TT::expected_handle`; the id is read from the first key member), `h(nokey)` for the all-zero handle
+/// of a keyless type, raw hex otherwise
+fn show_ih<T: TT>(h: &InstanceHandle) -> String {
     let b: &[u8; 16] = h.as_ref();
-    if b[4..].iter().all(|x| *x == 0) {
-        if !keyed && b.iter().all(|x| *x == 0) {
-            return "h(nokey)".into();
-        }
-        if keyed {
-            return format!("h({})", i32::from_be_bytes([b[0], b[1], b[2], b[3]]));
-        }
+    if !T::KEYED {
+        return if b.iter().all(|x| *x == 0) { "h(nokey)".into() } else { hx(h) };
     }
-    hx(h)
+    let id = i32::from_be_bytes([b[0], b[1], b[2], b[3]]);
+    if *b == T::expected_handle(id) {
+        format!("h({id})")
+    } else {
+        hx(h)
+    }
 }
 fn err_name(e: &DdsError) -> String {
     let k = match e {
@@ -1059,9 +1133,9 @@ impl Interp {
 
     fn op_topic(&mut self, toks: &[&str]) -> Res {
         let (plain, mut kv) = split_kv(toks);
-        let [name, parent, topic_name, ty] = plain[..] else { return Err("usage: topic <name> <participant> <topic_name> <ki|kb|ni|nb> [qos] [listener=<mask>]".into()) };
+        let [name, parent, topic_name, ty] = plain[..] else { return Err("usage: topic <name> <participant> <topic_name> <ki|kb|ni|nb|bk|kk> [qos] [listener=<mask>]".into()) };
         let (p, _) = self.participant(parent)?;
-        let ty = Ty::parse(ty).ok_or("bad type (ki|kb|ni|nb)")?;
+        let ty = Ty::parse(ty).ok_or("bad type (ki|kb|ni|nb|bk|kk)")?;
         let (l, mask) = self.listener_opt(name, &mut kv)?;
         let qos = if kv.is_empty() {
             QosKind::Default
@@ -1077,6 +1151,8 @@ impl Interp {
                 Ty::Kb => p.create_topic::<KeyedBytes>(&tn, KeyedBytes::TYPE_NAME, qos, l, &mask).await,
                 Ty::Ni => p.create_topic::<KeylessI32>(&tn, KeylessI32::TYPE_NAME, qos, l, &mask).await,
                 Ty::Nb => p.create_topic::<KeylessBytes>(&tn, KeylessBytes::TYPE_NAME, qos, l, &mask).await,
+                Ty::Bk => p.create_topic::<BytesThenKey>(&tn, BytesThenKey::TYPE_NAME, qos, l, &mask).await,
+                Ty::Kk => p.create_topic::<TwoKeys>(&tn, TwoKeys::TYPE_NAME, qos, l, &mask).await,
             }
         })?;
         Ok(match r {
@@ -1128,6 +1204,8 @@ impl Interp {
                 Ty::Kb => W::Kb(p.create_datawriter::<KeyedBytes>(&t, qos, l, &mask).await?),
                 Ty::Ni => W::Ni(p.create_datawriter::<KeylessI32>(&t, qos, l, &mask).await?),
                 Ty::Nb => W::Nb(p.create_datawriter::<KeylessBytes>(&t, qos, l, &mask).await?),
+                Ty::Bk => W::Bk(p.create_datawriter::<BytesThenKey>(&t, qos, l, &mask).await?),
+                Ty::Kk => W::Kk(p.create_datawriter::<TwoKeys>(&t, qos, l, &mask).await?),
             })
         })?;
         Ok(match r {
@@ -1161,6 +1239,8 @@ impl Interp {
                         Ty::Kb => R::Kb(s.create_datareader::<KeyedBytes>($t, qos, l, &mask).await?),
                         Ty::Ni => R::Ni(s.create_datareader::<KeylessI32>($t, qos, l, &mask).await?),
                         Ty::Nb => R::Nb(s.create_datareader::<KeylessBytes>($t, qos, l, &mask).await?),
+                        Ty::Bk => R::Bk(s.create_datareader::<BytesThenKey>($t, qos, l, &mask).await?),
+                        Ty::Kk => R::Kk(s.create_datareader::<TwoKeys>($t, qos, l, &mask).await?),
                     }
                 };
             }
@@ -1322,10 +1402,14 @@ impl Interp {
             Ent::Writer(W::Kb(d)) => setq!(d, apply_writer_qos),
             Ent::Writer(W::Ni(d)) => setq!(d, apply_writer_qos),
             Ent::Writer(W::Nb(d)) => setq!(d, apply_writer_qos),
+            Ent::Writer(W::Bk(d)) => setq!(d, apply_writer_qos),
+            Ent::Writer(W::Kk(d)) => setq!(d, apply_writer_qos),
             Ent::Reader(R::Ki(d)) => setq!(d, apply_reader_qos),
             Ent::Reader(R::Kb(d)) => setq!(d, apply_reader_qos),
             Ent::Reader(R::Ni(d)) => setq!(d, apply_reader_qos),
             Ent::Reader(R::Nb(d)) => setq!(d, apply_reader_qos),
+            Ent::Reader(R::Bk(d)) => setq!(d, apply_reader_qos),
+            Ent::Reader(R::Kk(d)) => setq!(d, apply_reader_qos),
         })
     }
 
@@ -1412,7 +1496,7 @@ fn show_sample<T: TT>(s: &Sample<T>) -> String {
         i.generation_rank,
         i.absolute_generation_rank,
         i.source_timestamp.map(|t| ns_of(t).to_string()).unwrap_or("-".into()),
-        show_ih(&i.instance_handle, T::KEYED),
+        show_ih::<T>(&i.instance_handle),
         hx(&i.publication_handle),
         i.valid_data as u8
     )
@@ -1449,7 +1533,19 @@ enum ReadOp {
     TakeNextInstance,
 }
 
-async fn do_read<T: TT>(d: &DataReaderAsync<T>, op: ReadOp, a: &ReadArgs, h: Option<InstanceHandle>) -> String {
+/// instance argument of read-instance / read-next-instance: a scenario id or explicit handle bytes
+#[derive(Clone, Copy)]
+enum HandleArg {
+    Id(i32),
+    Raw(InstanceHandle),
+}
+
+async fn do_read<T: TT>(d: &DataReaderAsync<T>, op: ReadOp, a: &ReadArgs, h: Option<HandleArg>) -> String {
+    // a scenario id stands for the handle this reader's TYPE gives that id
+    let h = h.map(|x| match x {
+        HandleArg::Id(id) => InstanceHandle::new(T::expected_handle(id)),
+        HandleArg::Raw(h) => h,
+    });
     match op {
         ReadOp::Read => show_samples(d.read(a.max, &a.ss, &a.vs, &a.is).await),
         ReadOp::Take => show_samples(d.take(a.max, &a.ss, &a.vs, &a.is).await),
@@ -1473,7 +1569,7 @@ enum WriteOp {
 
 async fn do_write<T: TT>(d: &DataWriterAsync<T>, op: WriteOp, id: i32, val: &str, ts: Option<Time>, h: Option<InstanceHandle>) -> Result<String, String> {
     let sample = T::make(id, val)?;
-    let show_opt = |r: DdsResult<Option<InstanceHandle>>| ok_or_err(r, |o| o.map(|h| show_ih(&h, T::KEYED)).unwrap_or("none".into()));
+    let show_opt = |r: DdsResult<Option<InstanceHandle>>| ok_or_err(r, |o| o.map(|h| show_ih::<T>(&h)).unwrap_or("none".into()));
     Ok(match (op, ts) {
         (WriteOp::Write, None) => unit(d.write(sample, h).await),
         (WriteOp::Write, Some(t)) => unit(d.write_w_timestamp(sample, h, t).await),
@@ -1505,7 +1601,7 @@ impl Interp {
             return Err(format!("unknown option {}", kv[0].0).into());
         }
         let w = self.writer(name)?;
-        let val = if matches!(w, W::Kb(_) | W::Nb(_)) && val == "0" && op != WriteOp::Write { "-" } else { val };
+        let val = if matches!(w, W::Kb(_) | W::Nb(_) | W::Bk(_) | W::Kk(_)) && val == "0" && op != WriteOp::Write { "-" } else { val };
         let r = blk(async move { each_w!(&w, d => do_write(d, op, id, val, ts, h).await) })?;
         Ok(r?)
     }
@@ -1518,10 +1614,10 @@ impl Interp {
         if !kv.is_empty() {
             return Err(format!("unknown option {}", kv[0].0).into());
         }
-        let parse_h = |s: &str| -> Result<InstanceHandle, String> {
+        let parse_h = |s: &str| -> Result<HandleArg, String> {
             match s.parse::<i32>() {
-                Ok(id) => Ok(key_handle(id)),
-                Err(_) => parse_handle(s),
+                Ok(id) => Ok(HandleArg::Id(id)),
+                Err(_) => parse_handle(s).map(HandleArg::Raw),
             }
         };
         let (name, h) = match (op, &plain[..]) {
